@@ -1,3 +1,143 @@
-LEVEL = 'other'
-EXPLANATION = 'C18 (partial: under construction)'
-EXTRA = []
+"""C18 - configuration is honoured, local to its calculator, and parsed faithfully."""
+import os
+import tempfile
+import time
+
+LEVEL = 'proof'
+EXPLANATION = ('create_interface_config merge for none/each/all/pairs of the 8 settings and the unknown-key rejection; '
+               'TrajectoryCalc.__init__ keeps its own Config and builds gravity from it; get_calc_step; the global step '
+               'setter / reset with the global modelled as state; every enumeration name and every alias of the live '
+               'UnitAliases table through _parse_unit and PreferredUnits.set with the input abstracted to its normal form '
+               'strip().lower() (one symbolic instance per normal form = all letter cases and surrounding blanks; any other '
+               'use of the raw string is an engine error); exhaustive ast scan that the module-level default constants are '
+               'read only by create_interface_config; exhaustive concrete enumeration (back end E) of value strings with '
+               'numeric prefixes and of the TOML calculator section.')
+EXTRA = ['scan_setting_reads', 'enumerate_value_strings', 'toml_calculator_section']
+NOT_DECIDED = ['"no integration step advances the projectile through the air by more than the configured maximum step" is '
+               'decided only as: time step x max(1, pre-step air speed) = half the configured maximum (step clause of '
+               '_integrate); the growth of the air speed within the step (<= |g| dt) is not machine-checked, and fails '
+               'below ~3 fps air speed (dt saturates at calc_step): recorded in DESIGN.md (D18)',
+               'the regular expressions of _parse_value are trusted (re is not verified)']
+
+
+def scan_setting_reads(tier, seed):
+    """the module-level defaults (cZeroFindingAccuracy ... _globalMaxCalcStepSizeFeet) are read only where a
+    configuration is created; the solver reads its settings from self._config only"""
+    import ast
+    from pyvc.scan import package_files, result, obl
+    t0 = time.time()
+    names = {'cZeroFindingAccuracy', 'cMinimumVelocity', 'cMaximumDrop', 'cMaxIterations', 'cGravityConstant',
+             'cMinimumAltitude', '_globalMaxCalcStepSizeFeet', '_globalChartResolution'}
+    allowed_files = {'py_ballisticcalc/interface_config.py', 'py_ballisticcalc/trajectory_calc/__init__.py'}
+    obls = []
+    for rel, path in package_files():
+        tree = ast.parse(open(path, encoding='utf-8').read(), path)
+        for n in ast.walk(tree):
+            nm = n.id if isinstance(n, ast.Name) else (n.attr if isinstance(n, ast.Attribute) else None)
+            if nm in names and isinstance(getattr(n, 'ctx', None), ast.Load):
+                # self._config.cXxx / _config.cXxx reads are the intended use sites
+                via_config = isinstance(n, ast.Attribute) and ast.unparse(n.value).endswith('_config')
+                ok = via_config or rel in allowed_files
+                obls.append(obl(f'scan::setting-read.{nm}@{rel}:L{n.lineno}', ok,
+                                f'{ast.unparse(n)} ({rel}:{n.lineno}): a setting is read from the calculator\'s own Config, '
+                                f'module-level defaults only where a Config is created', kind='dep', line=n.lineno))
+        if rel == 'py_ballisticcalc/trajectory_calc/_trajectory_calc.py':
+            for n in ast.walk(tree):
+                if isinstance(n, (ast.Assign, ast.AugAssign)):
+                    for t in (n.targets if isinstance(n, ast.Assign) else [n.target]):
+                        if isinstance(t, ast.Attribute) and t.attr in ('_config', 'gravity_vector'):
+                            q = [f.name for f in ast.walk(tree) if isinstance(f, ast.FunctionDef)
+                                 and f.lineno <= n.lineno <= f.end_lineno]
+                            ok = q[-1:] == ['__init__']
+                            obls.append(obl(f'scan::config-store@{rel}:L{n.lineno}', ok,
+                                            f'{ast.unparse(t)} assigned in {q[-1:]}: the configuration and the gravity vector '
+                                            f'are set once, in __init__', kind='frame', line=n.lineno))
+    return result('scan:setting-reads', obls, t0, props=('C18',))
+
+
+def _variants(name):
+    return sorted({name, name.lower(), name.upper(), name.title(), name.swapcase(), f'  {name} ', f'\\t{name.upper()}'.replace('\\t', '\t')})
+
+
+def enumerate_value_strings(tier, seed):
+    """back end E: every enumeration name and alias x letter-case variants x numeric prefixes through the real
+    _parse_value / _parse_unit / PreferredUnits.set (concrete execution, exhaustive over the finite tables)"""
+    import warnings
+    warnings.simplefilter('ignore')
+    from py_ballisticcalc.unit import Unit, UnitAliases, _parse_unit, _parse_value, PreferredUnits, AbstractDimension
+    from pyvc.scan import result, obl
+    t0 = time.time()
+    table = {}
+    for u in Unit:
+        table.setdefault(u.name, u)
+    for als, u in UnitAliases.items():
+        for a in als:
+            table.setdefault(a, u)
+    bad = []
+    n = 0
+    for name, u in table.items():
+        for v in _variants(name):
+            n += 1
+            if _parse_unit(v) is not u:
+                bad.append(f'_parse_unit({v!r}) -> {_parse_unit(v)!r}, expected {u!r}')
+            for prefix, num in (('1', 1.0), ('-2.5', -2.5), ('.5', 0.5), ('3.', 3.0)):
+                n += 1
+                try:
+                    q = _parse_value(prefix + v, None)
+                    ok = isinstance(q, AbstractDimension) and q.units is u and abs(q.unit_value - num) <= 1e-9 * max(1, abs(num))
+                except Exception as e:  # noqa
+                    ok, q = False, repr(e)
+                if not ok:
+                    bad.append(f'_parse_value({prefix + v!r}) -> {q!r}, expected {num} {u!r}')
+            slot = 'angular' if int(u) < 10 else 'distance'
+            saved = getattr(PreferredUnits, slot)
+            PreferredUnits.set(**{slot: v})
+            if getattr(PreferredUnits, slot) is not u:
+                bad.append(f'PreferredUnits.set({slot}={v!r}) -> {getattr(PreferredUnits, slot)!r}, expected {u!r}')
+            setattr(PreferredUnits, slot, saved)
+    obls = [obl('enumerate::names-and-aliases-resolve', not bad,
+                f'{n} (name | alias) x letter-case x numeric-prefix combinations of the live Unit / UnitAliases tables resolve to '
+                f'their unit through _parse_unit, _parse_value and PreferredUnits.set' + (f'; FAILED: {bad[:5]}' if bad else ''),
+                kind='enumeration')]
+    obls[0]['backend'] = f'concrete execution of the real functions, exhaustive over the tables ({n} cases)'
+    if bad:
+        obls[0]['replay_native'] = ('import sys\nsys.path.insert(0, "/repo")\nfrom py_ballisticcalc.unit import *\n'
+                                    'from py_ballisticcalc.unit import _parse_unit, _parse_value\n'
+                                    f'print({bad[0]!r})\nsys.exit(1)\n')
+    return result('enumerate:value-strings', obls, t0, props=('C18',))
+
+
+def toml_calculator_section(tier, seed):
+    """the [pybc.calculator] max_calc_step_size unit name of a configuration file, in any letter case / alias"""
+    import warnings
+    warnings.simplefilter('ignore')
+    import py_ballisticcalc as P
+    from py_ballisticcalc import trajectory_calc as T
+    from pyvc.scan import result, obl
+    t0 = time.time()
+    bad = []
+    cases = [('Foot', 2.0, 2.0), ('foot', 2.0, 2.0), ('FT', 3.0, 3.0), ('Meter', 1.0, 1 / 0.3048), ('m', 0.5, 0.5 / 0.3048),
+             ('inch', 6.0, 0.5)]
+    saved = T._globalMaxCalcStepSizeFeet
+    for name, val, feet in cases:
+        with tempfile.NamedTemporaryFile('w', suffix='.toml', delete=False) as fh:
+            fh.write('[pybc.preferred_units]\ndistance = "Yard"\n[pybc.calculator]\n'
+                     f'max_calc_step_size = {{ value = {val}, units = "{name}" }}\n')
+            path = fh.name
+        try:
+            T.reset_globals()
+            P._load_config(path, suppress_warnings=True)
+            got = T._globalMaxCalcStepSizeFeet
+            if abs(got - feet) > 1e-6 * feet:
+                bad.append(f'units = "{name}", value = {val}: default step {got} ft, expected {feet} ft')
+        finally:
+            os.unlink(path)
+    T._globalMaxCalcStepSizeFeet = saved
+    P.PreferredUnits.defaults()
+    o = obl('enumerate::toml-calculator-units', not bad,
+            'configuration-file unit names (enumeration name or alias, any letter case) select that unit for the global '
+            'maximum step' + (f'; FAILED: {bad}' if bad else ''), kind='enumeration')
+    o['backend'] = f'concrete execution of the real _load_config on {len(cases)} generated files'
+    if bad:
+        o['replay_native'] = ('import sys\nprint(' + repr(bad[0]) + ')\nsys.exit(1)\n')
+    return result('enumerate:toml', [o], t0, props=('C18',))
